@@ -56,6 +56,9 @@ type BreakerModel struct {
 	Interval, Timeout time.Duration
 	states            []bstate
 	Visited           map[string]struct{} // distinct abstract states seen
+	// Done, when set before a Step, is the instant the fed request completed at its client (0: it took no time).
+	// A failure counts from the moment it is known, so the open period starts no earlier than that.
+	Done time.Duration
 }
 
 // NewBreakerModel creates the acceptor in the closed state.
@@ -77,6 +80,12 @@ func (m *BreakerModel) Modes() map[string]bool {
 // allowed state explains the observation, else a description of the violation
 // and a short signature kind.
 func (m *BreakerModel) Step(t time.Duration, o Outcome, stateAfter string) (kind, desc string) {
+	// the instant at which this request's outcome can have been recorded at the earliest
+	trip := t
+	if m.Done > t+50*time.Millisecond {
+		trip = m.Done - 50*time.Millisecond
+	}
+	m.Done = 0
 	var next []bstate
 	var why []string
 	for _, s := range m.states {
@@ -98,7 +107,7 @@ func (m *BreakerModel) Step(t time.Duration, o Outcome, stateAfter string) (kind
 				}
 				s.lastFail, s.hasFail = t, true
 				if s.cnt >= m.FT {
-					s.mode, s.tripAt = mOpen, t
+					s.mode, s.tripAt = mOpen, trip
 					if stateAfter != StOpen {
 						why = append(why, fmt.Sprintf("not-open-after-threshold|%d failures accumulated (threshold %d) but the breaker reports %s", s.cnt, m.FT, stateAfter))
 						continue
@@ -171,7 +180,7 @@ func (m *BreakerModel) Step(t time.Duration, o Outcome, stateAfter string) (kind
 					s.cnt++
 				}
 				s.lastFail, s.hasFail = t, true
-				s.mode, s.tripAt = mOpen, t
+				s.mode, s.tripAt = mOpen, trip
 				if stateAfter != StOpen {
 					why = append(why, "not-reopened-on-trial-failure|a trial request failed but the breaker reports "+stateAfter)
 					continue
